@@ -166,6 +166,10 @@ def scenarios_for(prog, x, rng, per_prog):
         badfile = {i: rng.choice(["0", "1"]) for i in inputs if rng.random() < 0.5}
         badfile[rng.choice(inputs)] = "bad"          # supplied, but not a valid value: must never be asked for, never read as missing
         out.append(dict(cfg0=badfile, answers=dict(total), prompt=True, sched="nat", req=None, key=None))
+    if len(inputs) >= 2:
+        # everything but the first input is already in the file: the prompts must be for that one input only
+        total2 = {i: rng.choice(["0", "1"]) for i in inputs}
+        out.append(dict(cfg0={i: total2[i] for i in inputs[1:]}, answers=dict(total2), prompt=True, sched="nat", req=None, key=None))
     kind = rng.choice(["EOF", "BAD"])
     out.append(dict(cfg0={}, answers=dict(total), prompt=True, at={rng.choice([1, 2]): kind}, sched="nat", req=None, key=None))
     return out
@@ -410,6 +414,11 @@ def run(pid, tier):
         rejected = {}
         for tr in traces:
             consumed, total, err = verdicts[tr["tid"]]
+            if tr.get("overflow") and pid == "C06":
+                # whatever the first rejected step says (and whoever owns it): the solve did not stop within its work bound
+                rep.violation("trace:prog%d:work bound exceeded" % tr["meta"]["prog"],
+                              "the solve produced more than the bounded number of events (livelock or unbounded retry); first rejected step: %s" % (err or "none"),
+                              {"kind": "program-run", "meta": tr["meta"], "prog_id": tr["meta"]["prog"], "seed": sd})
             if err:
                 rejected[tr["tid"]] = err
                 own = owner_of(err)
@@ -453,6 +462,47 @@ def run(pid, tier):
                     rep.violation("runs:prog%d:result differs between runs with the same inputs" % key[0],
                                   "results: %s" % list(canons)[:2], {"kind": "program-runs", "metas": [byid[t]["meta"] for t, _ in members]})
             cov["equal_input_groups_compared"] = ngroups
+            # an input FILE that gives one key twice with different values, the two occurrences in either order: whatever the
+            # program does with such a file (it refuses it), it must not depend on the order
+            ndup = 0
+            for prog in small[:(15 if tier == "quick" else 120)]:
+                x = progs_mod.expand(prog)
+                inputs = sorted(x["all_inputs"])
+                if not inputs:
+                    continue
+                forms = progs_mod.build_forms(prog)
+                name = rng.choice(inputs)
+                sec, opt = name.split(".", 1)
+                others = {i: rng.choice(["0", "1"]) for i in inputs if i != name}
+                outcomes = []
+                for first, second in (("0", "1"), ("1", "0")):
+                    for layout in ("two-sections", "one-section"):
+                        text = "".join("[%s]\n%s = %s\n" % (i.split(".", 1)[0], i.split(".", 1)[1], v) for i, v in sorted(others.items()) if i.split(".", 1)[0] != sec)
+                        same_sec = "".join("%s = %s\n" % (i.split(".", 1)[1], v) for i, v in sorted(others.items()) if i.split(".", 1)[0] == sec)
+                        if layout == "two-sections":
+                            text += "[%s]\n%s = %s\n%s[%s]\n%s = %s\n" % (sec, opt, first, same_sec, sec, opt, second)
+                        else:
+                            text += "[%s]\n%s = %s\n%s%s = %s\n" % (sec, opt, first, same_sec, opt, second)
+                        wdir = common.mkwork("hv_dup_")
+                        try:
+                            path = os.path.join(wdir, "dup.habutax")
+                            open(path, "w").write(text)
+                            try:
+                                tr, res, solver = runs.run_traced(forms, path, list(prog["request"]), prog["fieldNames"], user=None, chooser=None, mode="prog",
+                                                                  snap="none", tid=0, body=x["body"], max_events=2000, names=list(x["formOf"].keys()))
+                                canon = json.dumps(res if res["abort"] == "" else {"abort": "some"}, sort_keys=True)
+                            except Exception as e:     # noqa -- the file is refused before the solve starts
+                                canon = "refused:" + type(e).__name__
+                        finally:
+                            common.rmwork(wdir)
+                        outcomes.append((layout, first + second, canon))
+                ndup += 1
+                for layout in ("two-sections", "one-section"):
+                    cs = set(c for (l, _o, c) in outcomes if l == layout)
+                    if len(cs) > 1:
+                        rep.violation("dupfile:prog%d:result depends on the order of a repeated key in the input file" % prog["id"],
+                                      "%s: %s" % (layout, sorted(cs)[:2]), {"kind": "program-file", "prog_id": prog["id"], "key": name, "layout": layout})
+            cov["files_with_a_repeated_key_in_both_orders"] = ndup
             # every schedule of the REAL solver (depth-first over the hook's choice points) for the small programs
             nprog = 12 if tier == "quick" else 150
             cap = 150 if tier == "quick" else 3000
